@@ -36,6 +36,9 @@ What is PROVED here (all unbounded: any number of upstream states, any axis size
                           `_complete_prev_state`, the second pass of `_create_graph`), `set_input_groups`,
                           `prepare_states_ind/inputs`, `_split_task`, `LazyOutField._get_value` — and the nested-loop
                           reference succeed with the same outputs, the same job counts and the same job outputs per node.
+    `C03_complete_prev_state_first/_again`  the helper characterisations of `_complete_prev_state` (`_remove_repeated` +
+                          `_add_state_history`) the composition uses: identity on the class, at construction and at every
+                          later `_create_graph`.
 What is NOT proved: `C03_full_statement` (false: `C03_full_statement_false`), and the workflow-level statement for the rest
 of `InClass` (combiners, scalar splitters, shared origins that the mechanism happens to handle) — there the composition
 is compared by the correspondence check on every generated workflow and reported as testing.
@@ -308,6 +311,27 @@ theorem AgreesJobwise.agrees {w : Wf} (h : AgreesJobwise w) : Agrees w := by
     nested-loop reference both succeed, with equal workflow outputs, equal job counts and equal job outputs per node. -/
 theorem C03_workflow_Simple_partial (w : Wf) (h : Simple.simple w = true) : AgreesJobwise w :=
   Simple.simple_agrees w h
+
+/-- `_complete_prev_state` at construction (`Node._set_state`, no prev-state part yet), characterised on the class: with
+    the state objects of the earlier nodes plain (`InvA`) and no connected state's history meeting another connected state,
+    `_remove_repeated` and `_add_state_history` change nothing — the prev-state splitter is the list of ALL connected
+    states in connection order. -/
+theorem C03_complete_prev_state_first (E : Simple.Env) (sts : Sts) (n : Nat) (hI : Simple.InvA E sts n) (s : St) (other : Other)
+    (hs : s.prev = [])
+    (hprev : ∀ u ∈ other.map (·.1), u < n ∧ E.axes u ≠ [])
+    (hhist : ∀ u ∈ other.map (·.1), ∀ r ∈ E.sups u, r ∉ other.map (·.1)) :
+    connect sts s other = .ok (setTrees sts { s with other := other, prev := other.map (·.1) }) :=
+  Simple.connect_first E sts n hI s other hs hprev hhist
+
+/-- `_complete_prev_state` when `Workflow._create_graph` re-applies `update_connections` (on every run): the prev-state part
+    is already complete, nothing is added, `_remove_repeated` finds every `_U` among the connected states, the history
+    rewriting is the identity. -/
+theorem C03_complete_prev_state_again (E : Simple.Env) (sts : Sts) (n : Nat) (hI : Simple.InvA E sts n) (s : St) (other : Other)
+    (hs : s.prev = other.map (·.1)) (hne : other ≠ [])
+    (hprev : ∀ u ∈ other.map (·.1), u < n ∧ E.axes u ≠ [])
+    (hhist : ∀ u ∈ other.map (·.1), ∀ r ∈ E.sups u, r ∉ other.map (·.1)) :
+    connect sts s other = .ok (setTrees sts { s with other := other }) :=
+  Simple.connect_second E sts n hI s other hs hne hprev hhist
 
 /-- Non-vacuity: a five-node workflow in the class — two split roots (one with an outer splitter), a chain node with an own
     splitter on top of its upstream state, a fan-in of the two branches with one more own axis, a stateless constant node —
